@@ -67,7 +67,7 @@ def shards(tier):
     out = [dict(part="tile", W=W, H=H, k=k) for W in sz for H in sz
            for k in range(4)]
     out += [dict(part="ragged"), dict(part="fpga"), dict(part="dims"),
-            dict(part="history")]
+            dict(part="history"), dict(part="bigroot")]
     return out
 
 
@@ -125,6 +125,57 @@ def part_tile(W, H, k, acc):
 
 RAGGED = [[8, 8], [16, 16], [20, 12], [28, 16], [12, 16], [13, 1], [1, 13]]
 RAGGED_ROOTS = [(rx, ry) for rx in (0, 4, 5, 8) for ry in (0, 3, 4, 8, 11)]
+
+
+BIG_ROOTS = [(8, 16), (4, 20), (16, 8), (20, 4), (12, 12), (13, 17),
+             (23, 23), (12, 0), (0, 12)]
+
+
+def part_bigroot(acc):
+    """Root chips beyond the first 12x12 cell (any chip of the machine may be
+    the one the system was booted from): the tiling only depends on the root
+    modulo 12."""
+    from rig import geometry as g
+    for W, H in ((24, 24), (36, 24), (24, 36)):
+        for rx, ry in BIG_ROOTS:
+            if rx >= W or ry >= H:
+                continue
+            want_eth = set()
+            for x in range(W):
+                for y in range(H):
+                    acc.evaluations += 1
+                    acc.nontrivial += 1
+                    e, c = tile(x, y, W, H, rx % 12, ry % 12)
+                    if c == (0, 0):
+                        want_eth.add((x, y))
+                    try:
+                        ge = tuple(g.spinn5_local_eth_coord(x, y, W, H, rx,
+                                                            ry))
+                        gc = tuple(g.spinn5_chip_coord(x, y, rx, ry))
+                    except Exception as ex:
+                        ge = gc = repr(ex)
+                    if ge != e or gc != c:
+                        acc.violation(
+                            dict(kind="bigroot_chip"),
+                            dict(part="bigroot", W=W, H=H, root=[rx, ry],
+                                 chip=[x, y]),
+                            "root (%d,%d) on %dx%d: chip (%d,%d) -> local "
+                            "Ethernet chip %r / board coordinate %r, tiling "
+                            "gives %r / %r" % (rx, ry, W, H, x, y, ge, gc, e,
+                                               c), size=W * H)
+                        break
+            try:
+                got = list(g.spinn5_eth_coords(W, H, rx, ry))
+            except Exception as ex:
+                got = [repr(ex)]
+            if set(got) != want_eth or len(got) != len(set(got)):
+                acc.violation(
+                    dict(kind="bigroot_eth_coords"),
+                    dict(part="bigroot", W=W, H=H, root=[rx, ry]),
+                    "spinn5_eth_coords(%d,%d,%d,%d) = %r, Ethernet chips of "
+                    "the tiling: %r" % (W, H, rx, ry, sorted(got),
+                                        sorted(want_eth)), size=W * H)
+    acc.sample(dict(part="bigroot", roots=BIG_ROOTS))
 
 
 def part_ragged(acc):
@@ -310,6 +361,8 @@ def run_shard(params, tier, acc):
         part_fpga(acc)
     elif p == "history":
         part_history(acc)
+    elif p == "bigroot":
+        part_bigroot(acc)
     else:
         part_dims(tier, acc)
 
@@ -324,5 +377,7 @@ def replay(case, acc):
         part_fpga(acc)
     elif p == "history":
         part_history(acc)
+    elif p == "bigroot":
+        part_bigroot(acc)
     else:
         part_dims("quick", acc)
